@@ -1098,11 +1098,16 @@ func freeChain(r *lib.Rand) *freeRun {
 			f.fail("free-accepted-function-never-ran", "the chain did not resume within 3 s of the restart")
 		}
 		if mode == 1 {
-			f.mu.Lock()
-			n := f.fired[3]
-			f.mu.Unlock()
-			if n != 1 {
-				f.fail("free-uncleared-timeout-never-ran", fmt.Sprintf("a 1 ms timeout set next to a busy chain ran %d times although the loop ran for several ms", n))
+			fired := func() int {
+				f.mu.Lock()
+				defer f.mu.Unlock()
+				return f.fired[3]
+			}
+			for w := 0; w < 3000 && fired() == 0; w++ { // progress, not a deadline
+				time.Sleep(time.Millisecond)
+			}
+			if n := fired(); n != 1 {
+				f.fail("free-uncleared-timeout-never-ran", fmt.Sprintf("a 1 ms timeout set next to a busy chain ran %d times within 3 s of the restart (the chain itself kept running)", n))
 			}
 		}
 		atomic.StoreInt32(&stopChain, 1)
